@@ -142,6 +142,12 @@ class Rat:
     def is_zero(self) -> bool:
         return not self.num.terms
 
+    def as_number(self):
+        """The rational number this denotes when it contains no variable (else the object itself)."""
+        if self.num.is_const() and self.den.is_const() and self.den.terms:
+            return self.num.terms.get((), Fraction(0)) / self.den.terms[()]
+        return self
+
 
 class Vec:
     __slots__ = ("c",)
